@@ -54,6 +54,13 @@ def build_proc(variant):
                            '--public-flat-rw')
 
 
+HEX_SOURCES = ['verilog/hex_pkg.sv', 'verilog/hex.sv', 'verilog/processor.sv', 'verilog/memory.sv']
+
+
+def build_hex():
+    return verilated_build('rtl_hex', 'hex', HEX_SOURCES, 'harness/rtl_hex.cpp', 'Vhexv', '--public-flat-rw')
+
+
 if __name__ == '__main__':
     st = generate_all()
     for k, v in st.items():
